@@ -7,8 +7,9 @@ from .lib_c01 import (PRE_FIX_F3_EDITS, VALUE_PRESERVING, Renamed, access_path, 
 from .lib_c01 import edge_is_rejecting as edge_rejects
 
 LEVEL = "other"
-TECHNIQUE = ("static analysis: access-path / slice provenance (SAME-SOURCE, CHAIN), per-variant decision tables read off the MIR switches of the trie walk, "
-             "who-calls census of the version predicate, dominance over the registration conflict loop")
+TECHNIQUE = ("static analysis: access-path / slice provenance (SAME-SOURCE, CHAIN) with value sources followed through every definition of a multi-assigned local, "
+             "per-variant decision tables read off the MIR switches of the trie walk, role-based census of the version predicate (closure predicate / filter_map / explicit loop), "
+             "dominance and path-sensitive (constant- and variant-propagating) reachability over the registration conflict test and the version-policy guard")
 LEVEL_TEXT = ("Decides, on every path of the type-checked MIR of the current tree, the structural clauses of C01: (R1) http_request_handle routes on the method, URI path and "
               "resolved version of the one request it then hands to the handler, and both task-mode arms invoke lookup_result.handler with a context whose endpoint metadata is "
               "lookup_result.endpoint; (R2) every field of the lookup answer comes from the single endpoint returned by find_handler_matching_version(methods-of-the-matched-node[METHOD], "
@@ -28,9 +29,13 @@ LEVEL_NOTE = ("Trusts rustc MIR construction, the extractor, engine slices/domin
 EXPLANATION = ("Rules over the MIR of server::http_request_handle (coroutine), server::HttpServerStarter::new_internal, router::HttpRouter::{lookup_route,insert,has_versioned_routes}, "
                "router::find_handler_matching_version and router::iter_handlers_from_node extracted from the current tree. Provenance is computed as normalised access paths (single-assignment temporaries followed through copies, "
                "borrows and an explicit list of value-preserving callees, stopping at parameters, call results and re-assigned locals) and backward slices with callee allow-lists; "
-               "tables are read from the discriminant switches on HttpRouterEdges; dominance uses the pruned CFG.")
+               "tables are read from the discriminant switches on HttpRouterEdges; dominance uses the pruned CFG. The rules are written over roles, not spellings: the success payload of a "
+               "Result/Option is the same path whether it was split by `?`, match, if-let or let-else; a value bound through `let x = match ..` or an or-pattern is followed into every arm; "
+               "`while let .. push` and `extend(iterator)` are both accepted for draining the segment iterator; the version predicate may be a closure handed to find/filter, a filter_map closure or an explicit "
+               "loop with early return; the overlap test may be a loop or a find/position/any search; `!= All` may be written as ==, match or matches!; the sticky flag as `= true` under a test, `|=` or `a = a || b`; "
+               "private helpers that are not on tables/known_functions.txt are analysed inlined.")
 TRUSTED = ["rustc nightly MIR construction", "mirfacts extractor", "rules/engine.py (dominators, slices) and rules/lib_c01.py (access paths)",
-           "std BTreeMap/Vec/Iterator semantics", "http crate accessors (Request::method/uri, Uri::path, Method::as_str)", "C05.E1/E2 (exact matches / overlaps_with tables)"]
+           "std BTreeMap/Vec/Iterator semantics (incl. Extend for Vec: appends every remaining item in order; find/position/any: apply the predicate to each item until it first holds)", "http crate accessors (Request::method/uri, Uri::path, Method::as_str)", "C05.E1/E2 (exact matches / overlaps_with tables)"]
 
 VP = VALUE_PRESERVING
 TRYQ = [r"ops::Try::branch$"]
@@ -991,6 +996,12 @@ SELFTEST = [
                 "                None => {\n                    return Err(HttpError::for_not_found(\n                        None,\n"
                 "                        String::from(\"no route found (no path in router)\"),\n                    ))\n                }\n            };\n")],
      "why": "the cursor is advanced by an explicit match, but to the root instead of the matched edge's child"},
+    {"name": 'versioned-flag-or-of-negated-flag', "kind": "mutant", "expect": ['C01.R7'],
+     "edits": [(RT, '        if endpoint.versions != ApiEndpointVersions::All {\n            self.has_versioned_routes = true;\n        }\n', '        self.has_versioned_routes = !self.has_versioned_routes\n            || endpoint.versions != ApiEndpointVersions::All;\n')],
+     "why": 'written as a short-circuit `||`, but of the NEGATED old flag: a second unversioned registration clears what an earlier versioned one recorded'},
+    {"name": 'unversioned-check-tests-wrong-policy', "kind": "mutant", "expect": ['C01.R7'],
+     "edits": [(SV, '        if let VersionPolicy::Unversioned = version_policy {\n            if router.has_versioned_routes() {\n                return Err(BuildError::UnversionedServerHasVersionedRoutes);\n            }\n        }\n', '        let has_versioned = router.has_versioned_routes();\n        if has_versioned {\n            if let VersionPolicy::Dynamic(_) = version_policy {\n                return Err(BuildError::UnversionedServerHasVersionedRoutes);\n            }\n        }\n')],
+     "why": 'the accessor is consulted first, but the refusal is tied to the Dynamic policy instead of Unversioned'},
     # ---------------------------------------------------------------- benign variants
     {"name": "benign-extra-statement-in-walk", "kind": "benign",
      "edits": [(RT, "            let segment_string = segment.to_string();\n", "            let segment_string = segment.to_string();\n            let _depth = variables.len();\n")],
@@ -1040,6 +1051,15 @@ SELFTEST = [
      "edits": [(SV, "        if let VersionPolicy::Unversioned = version_policy {\n            if router.has_versioned_routes() {\n                return Err(BuildError::UnversionedServerHasVersionedRoutes);\n            }\n        }\n",
                 "        let unversioned = matches!(version_policy, VersionPolicy::Unversioned);\n        if unversioned && router.has_versioned_routes() {\n            return Err(BuildError::UnversionedServerHasVersionedRoutes);\n        }\n")],
      "why": "behaviour-preserving: nested if-let / if written as a named flag && the accessor"},
+    {"name": 'benign-flag-short-circuit-or', "kind": "benign",
+     "edits": [(RT, '        if endpoint.versions != ApiEndpointVersions::All {\n            self.has_versioned_routes = true;\n        }\n', '        self.has_versioned_routes = self.has_versioned_routes\n            || endpoint.versions != ApiEndpointVersions::All;\n')],
+     "why": 'behaviour-preserving: sticky flag written as `flag = flag || (versions != All)`'},
+    {"name": 'benign-policy-check-flag-first', "kind": "benign",
+     "edits": [(SV, '        if let VersionPolicy::Unversioned = version_policy {\n            if router.has_versioned_routes() {\n                return Err(BuildError::UnversionedServerHasVersionedRoutes);\n            }\n        }\n', '        let has_versioned = router.has_versioned_routes();\n        if has_versioned {\n            if let VersionPolicy::Unversioned = version_policy {\n                return Err(BuildError::UnversionedServerHasVersionedRoutes);\n            }\n        }\n')],
+     "why": 'behaviour-preserving: the two independent tests nested in the other order (accessor first, then the policy)'},
+    {"name": 'benign-walk-loop-with-let-else', "kind": "benign",
+     "edits": [(RT, '        while let Some(segment) = all_segments.next() {\n            let segment_string = segment.to_string();\n', '        loop {\n            let Some(segment) = all_segments.next() else {\n                break;\n            };\n            let segment_string = segment.to_string();\n')],
+     "why": 'behaviour-preserving: `while let Some(s) = it.next()` written as `loop { let Some(s) = it.next() else { break }; .. }`'},
     {"name": "benign-segment-clone", "kind": "benign",
      "edits": [(RT, "let segment_string = segment.to_string();", "let segment_string = segment.clone();")],
      "why": "behaviour-preserving: String::clone instead of to_string"},
